@@ -72,9 +72,43 @@ class Prop(PropBase):
                 # a getTemperature query after every packet delimits the packets in the output
                 s.lines = [x for l in s.lines for x in ((l, 'T 0') if l.startswith('P ') else (l,))]
                 scn_all.append(s.text(residual=()))
-        return [('drv', '\n'.join(scn_all) + '\n')]
+        # two different conditions within one second, with real threads: the caller's pool runs dry (null buffers: ERRCODE_POINTCLOUDNULL)
+        # and, while the decoding thread is held up by that, more than 1024 packets arrive (ERRCODE_PKTBUFOVERFLOW). The first occurrence
+        # of EACH condition in a process must be reported, whatever else was reported just before
+        thr = []
+        for k in range(2 if tier == 'quick' else 6):
+            t = ['RS16', 'RSM1', 'RSHELIOS'][k % 3]
+            l = self.L[t]
+            cfg = pktgen.Cfg(wait=0, dense=0, pktcb=0, lclock=1, mode=3, nblk=3)
+            pk = [scen.MechStream(rng, l).msop() for _ in range(2)] if l.mech else [scen.mems_msop(rng, l, q) for q in (1, 2, 1)]
+            filler = b'\xa5\xff' + bytes(rng.randrange(256) for _ in range(40))        # wrong-length DIFOP-dispatched packets: cheap to queue
+            lines = [f'S c19_thr_{t}_{k}', cfg.line(0, l), 'A 0 1 ' + ' '.join(['N'] * 700) + ' 2 1 2 1 2 1 2', 'WD 40', 'LC 0 1', 'LI 0', 'LS 0']
+            lines += [f'LP 0 {p.hex()}' for p in pk] + ['SL 30'] + [f'LP 0 {filler.hex()}'] * 1100 + ['SL 1200', 'LX 0', 'LD 0', 'E']
+            thr.append('\n'.join(lines))
+            self.types[f'c19_thr_{t}_{k}'] = t
+        return [('drv', '\n'.join(scn_all) + '\n'), ('thr', '\n'.join(thr) + '\n')]
+
+    projection_thr = {'kinds': {'crash', 'hang', 'nodrv'}}
+
+    def judge(self, bname, *a, **kw):
+        keep = self.projection
+        if bname == 'thr':
+            self.projection = self.projection_thr        # real threads: judged by the oracle below
+        try:
+            return PropBase.judge(self, bname, *a, **kw)
+        finally:
+            self.projection = keep
 
     def oracle(self, name, impl, model, scn):
+        if name.startswith('c19_thr_'):
+            res = []
+            codes = {l.split()[2] for l in impl if l.startswith('err ')}
+            nulls = sum(1 for l in impl if l.startswith('get') and l.endswith(' N'))
+            if nulls and '130' not in codes:
+                res.append(('first-not-reported', f'the get callback returned null {nulls} times but ERRCODE_POINTCLOUDNULL was never reported (codes reported: {sorted(codes)})'))
+            if nulls >= 600 and '72' not in codes:
+                res.append(('first-not-reported', f'1100 packets were queued behind a decoding thread held up for {nulls} ms (limit 1024) but the first ERRCODE_PKTBUFOVERFLOW of the process was not reported (codes reported: {sorted(codes)})'))
+            return res
         if name in self.clean:
             errs = [l for l in impl if l.startswith('err')]
             if errs:
